@@ -1881,6 +1881,12 @@ func execPipe(f []string) vlib.Res {
 		var ok bool
 		if f[2] == "wire" {
 			hit, ok = mcache.VerifC03FailureLookupWire(pc, id.n.wire, id.qtype, id.class, id.cd)
+		} else if f[2] == "store" {
+			// the Store-level wrapper the decoded routes call
+			m := new(dns.Msg)
+			m.Question = []dns.Question{id.q()}
+			m.CheckingDisabled = id.cd
+			hit, ok = store().LookupFailure(m, id.scope)
 		} else {
 			hit, ok = mcache.VerifC03FailureLookup(pc, fqKey(id))
 		}
